@@ -1,6 +1,7 @@
 package store
 
 import (
+	"fmt"
 	"strconv"
 	"unicode"
 
@@ -90,6 +91,9 @@ func ParsePathUint64(khash uint64, buf []int) []int {
 }
 
 func ParsePathString(pathStr string, buf []int) ([]int, error) {
+	if len(pathStr) > len(buf) {
+		return nil, fmt.Errorf("path too long: %d > %d", len(pathStr), len(buf))
+	}
 	path := buf[:len(pathStr)]
 	for i := 0; i < len(pathStr); i++ {
 		idx, err := strconv.ParseInt(pathStr[i:i+1], 16, 0)
@@ -125,6 +129,10 @@ func (ki *KeyInfo) setKeyHashByPath() {
 func (ki *KeyInfo) Prepare() (err error) {
 	if ki.KeyIsPath {
 		ki.KeyPath, err = ParsePathString(ki.StringKey, ki.KeyPathBuf[:16])
+		if err != nil {
+			ki.BucketID = -1
+			return
+		}
 		ki.setKeyHashByPath()
 		if len(ki.KeyPath) < Conf.TreeDepth {
 			ki.BucketID = -1
